@@ -355,6 +355,9 @@ func init() {
 						sb = append(sb, 'u')
 					}
 				}
+				if r.Bool(0.3) {
+					sb = append(sb, 'S') // a healthy answer that comes after the check's deadline
+				}
 			}
 			c.Health = string(sb)
 			p.Insts = append(p.Insts, c)
@@ -661,6 +664,20 @@ func init() {
 			p.Actions = append(p.Actions, a)
 		}
 		p.Until = t + 2*G + 3*sec
+		if r.Bool(0.15) {
+			// a reconnect whose verification read is answered only after a stop call has given up
+			// waiting for it (client time-out 15 s, answer after 5.5-9 s, Stop's cap is 5 s): the
+			// read in flight may finish, nothing new may follow it
+			p.Store.ClientTimeout = 15 * sec
+			tr := r.Dur(2*p.H, 6*p.H)
+			p.Actions = append(p.Actions, Action{At: tr, Kind: AReconnect, Inst: 0})
+			p.Faults = append(p.Faults, Fault{Kind: FSlow, Inst: 0, Op: "get", From: tr, To: tr + 300*ms, Arg: r.Dur(5500*ms, 9*sec)})
+			p.Actions = append(p.Actions, Action{At: tr + r.Dur(120*ms, 400*ms), Kind: Pick(r, []string{AStop, AStop, AStopCtx}), Inst: 0, Timeout: 2 * sec})
+			if p.Until < tr+12*sec {
+				p.Until = tr + 12*sec
+			}
+			p.Judge = []string{"C09"}
+		}
 		p.Tail = 0
 		p.Sched = SchedCfg{YieldProb: Pick(r, []float64{0, 0.3}), StallMax: 0}
 		return p
@@ -887,6 +904,18 @@ func init() {
 			from := r.Dur(0, p.Until/2)
 			p.Faults = append(p.Faults, Fault{Kind: FSlow, Inst: r.Intn(n), Op: Pick(r, []string{"update", "get", ""}), From: from, To: from + r.Dur(p.H, 5*p.H), Arg: r.Dur(1100*ms, 2500*ms)})
 			p.Until += 3 * sec
+		}
+		if r.Bool(0.5) {
+			// overlapping stop calls on one instance followed by a restart, several times (with slow
+			// answers above, the stop calls really wait for the instance's goroutines)
+			for k := 0; k < 2+r.Intn(3); k++ {
+				i, t := r.Intn(n), r.Dur(0, p.Until)
+				p.Actions = append(p.Actions,
+					Action{At: t, Kind: Pick(r, []string{AStop, AStopCtx}), Inst: i, Timeout: 1 * sec},
+					Action{At: t + r.Dur(0, 300*ms), Kind: Pick(r, []string{AStop, AStopCtx, AStopStart, AStopStart}), Inst: i, Timeout: 1 * sec},
+					Action{At: t + r.Dur(0, 1500*ms), Kind: AStart, Inst: i},
+					Action{At: t + r.Dur(0, 2500*ms), Kind: AStart, Inst: i})
+			}
 		}
 		p.Sched = SchedCfg{Free: true, YieldProb: 1}
 		return p
